@@ -137,6 +137,7 @@ type Backend struct {
 	// rpc_address of three bytes, 5 system.local answered with zero rows, 6 system.local answered VOID, 7 local partitioner
 	// null, 8 every peers row with a null rpc_address, 9 peers rows with a null data_center, 10 local row repeated twice, 11 system.peers answered VOID
 	SysHostile             int
+	StrictKeyspace         bool                     // a PREPARE whose table name is unqualified on a connection without a keyspace is INVALID, as Cassandra has it
 	SysDelay               time.Duration            // answers to the system-table queries are written after this delay
 	SlowStartupVersion     byte                     // if non-zero only STARTUPs of this protocol version are slowed down per host
 	StartupDelay           time.Duration            // every STARTUP is answered after this delay (widens the window in which a session is being created)
@@ -354,6 +355,9 @@ func (b *Backend) SetStartupDelay(d time.Duration) {
 // Lock / Unlock: for setting several configuration fields at once.
 func (b *Backend) Lock()   { b.mu.Lock() }
 func (b *Backend) Unlock() { b.mu.Unlock() }
+
+// a statement whose table name has no keyspace qualifier
+var unqualifiedRe = regexp.MustCompile(`(?i)\b(FROM|INTO|UPDATE)\s+"?[A-Za-z_][A-Za-z_0-9]*"?(\s|\(|$)`)
 
 // SetSysDelay: answers to system-table queries are written after d from now on.
 func (b *Backend) SetSysDelay(d time.Duration) {
@@ -1034,6 +1038,9 @@ func (c *Conn) handle(hdr, body, raw []byte) bool {
 		}
 		rec.Attempt = n
 		c.logRec(rec)
+		if out == nil && be.StrictKeyspace && c.keyspace == "" && msg.Keyspace == "" && unqualifiedRe.MatchString(msg.Query) {
+			out = &Outcome{Kind: ErrMsg, Msg: &message.Invalid{ErrorMessage: "No keyspace has been specified. USE a keyspace, or explicitly specify keyspace.tablename"}}
+		}
 		if out == nil || out.Kind == OkRows || out.Kind == OkVoid {
 			c.host.mu.Lock()
 			c.host.Prepared[idh] = true
